@@ -38,11 +38,24 @@ func (s *skel) w(x string) { s.b.WriteString(x) }
 
 func (s *skel) cmds(cs []ast.Command) {
 	s.w("[")
-	for i, c := range cs {
-		if i > 0 {
+	n := 0
+	for _, c := range cs {
+		if l, ok := c.(ast.List); ok && s.sepEq {
+			// "a; b" and "a<newline>b" are the same sequence of commands
+			for _, ao := range l {
+				if n > 0 {
+					s.w(" ")
+				}
+				s.andOr(ao)
+				n++
+			}
+			continue
+		}
+		if n > 0 {
 			s.w(" ")
 		}
 		s.cmd(c)
+		n++
 	}
 	s.w("]")
 }
@@ -50,6 +63,10 @@ func (s *skel) cmds(cs []ast.Command) {
 func (s *skel) cmd(c ast.Command) {
 	switch c := c.(type) {
 	case ast.List:
+		if s.sepEq && len(c) == 1 {
+			s.andOr(c[0])
+			return
+		}
 		s.w("(list")
 		for _, ao := range c {
 			s.w(" ")
@@ -74,6 +91,16 @@ func (s *skel) andOr(c *ast.AndOrList) {
 		s.w("<nil-andor>")
 		return
 	}
+	sep := c.Sep
+	if s.sepEq && sep == ";" {
+		sep = ""
+	}
+	if s.sepEq && sep == "" && len(c.List) == 0 {
+		// "a;" and "a<newline>" are the same program: the parser collapses the
+		// separator-less form to its pipeline
+		s.pipeline(c.Pipeline)
+		return
+	}
 	s.w("(andor ")
 	s.pipeline(c.Pipeline)
 	for _, ao := range c.List {
@@ -81,10 +108,6 @@ func (s *skel) andOr(c *ast.AndOrList) {
 		s.w(ao.Op)
 		s.w(" ")
 		s.pipeline(ao.Pipeline)
-	}
-	sep := c.Sep
-	if s.sepEq && sep == ";" {
-		sep = ""
 	}
 	if sep != "" {
 		s.w(" sep=")
@@ -244,11 +267,18 @@ func (s *skel) redir(r *ast.Redir) {
 
 func (s *skel) word(w ast.Word) {
 	s.w("<")
+	prevLit := false
 	for i, p := range w {
+		if l, ok := p.(*ast.Lit); ok && s.sepEq && prevLit {
+			// adjacent literals (left behind by a line continuation) are one literal
+			s.w(l.Value)
+			continue
+		}
 		if i > 0 {
 			s.w(" ")
 		}
 		s.part(p)
+		_, prevLit = p.(*ast.Lit)
 	}
 	s.w(">")
 }
@@ -497,7 +527,10 @@ func (w *errWriter) Write(p []byte) (int, error) {
 // PrintCmds prints commands one per line with cfg (nil: default config).
 func PrintCmds(cfg *printer.Config, cmds []ast.Command) (string, error) {
 	var b strings.Builder
-	for _, c := range cmds {
+	for i, c := range cmds {
+		if i > 0 {
+			b.WriteByte('\n')
+		}
 		var err error
 		if cfg == nil {
 			err = printer.Fprint(&b, c)
@@ -507,7 +540,6 @@ func PrintCmds(cfg *printer.Config, cmds []ast.Command) (string, error) {
 		if err != nil {
 			return b.String(), err
 		}
-		b.WriteByte('\n')
 	}
 	return b.String(), nil
 }
